@@ -362,7 +362,7 @@ func (g *gen) codeSpan() *inl {
 	return &inl{k: iCode, s: c}
 }
 
-var destChars = []string{"/url", "/a/b.c", "http://x.y/z?q=1#f", "rel", "/p(a)", "#frag", "/%20x", "/a\\(b", "/c\\)d", "/u&#128;x&ouml;", "/é"}
+var destChars = []string{"/url", "/a/b.c", "http://x.y/z?q=1#f", "rel", "/p(a)", "#frag", "/%20x", "/a\\(b", "/c\\)d", "/u&#128;x&ouml;", "/x%41", "/caf%C3%A9", "/100%", "/q%2", "/%zz%4g", "/é"}
 
 func (g *gen) destTitle(in *inl) {
 	in.dest = destChars[g.r.Intn(len(destChars))]
